@@ -118,10 +118,13 @@ func VerifyFunction(p *Prog, fn *ssa.Function, c *Contract) (vc *VC) {
 	}
 	var alsos []*Contract
 	if c != nil {
-		for _, r := range append(append([]*Clause{}, c.Requires...), c.CapReq...) {
+		for _, r := range append(append(append([]*Clause{}, c.Requires...), c.CapReq...), c.Assumes...) {
 			t, ok := vc.trClause(vc.entryScopeF(f), r)
 			if ok {
 				vc.assume(t)
+			}
+			if r.Kind == "assumes" {
+				vc.trustedUsed["assumed in "+vc.funcName()+": "+r.Src] = true
 			}
 		}
 		vc.modTop = vc.evalMods(vc.entryScopeF(f), c)
